@@ -50,7 +50,7 @@ def _case(draw):
             # same variables, same constant, one coefficient different: a different constraint that must not be taken for a duplicate
             co2 = dict(co)
             v0 = list(co2)[draw(st.integers(0, len(co2) - 1))]
-            how = draw(st.integers(0, 3))
+            how = draw(st.sampled_from([0, 0, 1, 2, 3]))
             if how == 0:
                 co2[v0] = co2[v0] * (1 + draw(st.sampled_from([9e-6, -9e-6])))      # almost, but not, the same number
             elif how == 1 and len(co2) >= 2 and len(set(co2.values())) >= 2:
